@@ -124,7 +124,7 @@ def run_C10(ctx):
                 if got[: len(exp_older)] != exp_older:
                     why = "an older chunk file was modified by the recovery"
                 elif m["k"] >= 1:
-                    if got[len(exp_older)] != (fid, data[:keep]):
+                    if len(got) <= len(exp_older) or got[len(exp_older)] != (fid, data[:keep]):
                         why = "newest chunk not cut back to its %d complete records (%d bytes)" % (m["k"], keep)
                     elif (not complete) and (len(got) != len(disk) + 1 or got[-1][0] != fid + keep):
                         why = "no fresh chunk at the cut offset %d after a discarded tail" % (fid + keep)
